@@ -11,6 +11,18 @@ def etas(eta_max, eta_step):
     return np.arange(0.0, eta_max, eta_step)
 
 
+def eta_sets(eta_max, eta_step):
+    """'eta in [0, eta_max) by eta_step': when eta_max / eta_step is an integer up to rounding (0.3 / 0.01), whether the
+    last sample k * eta_step is < eta_max depends on the floating-point type; both readings are returned."""
+    q = eta_max / eta_step
+    n_lo = int(np.ceil(q - 1e-4))
+    n_hi = int(np.ceil(q + 1e-4))
+    out = [np.arange(n_lo) * eta_step]
+    if n_hi != n_lo:
+        out.append(np.arange(n_hi) * eta_step)
+    return out
+
+
 def normalise(cv, type_measure):
     c = cv.astype(np.float64)
     if type_measure == "max":
@@ -25,24 +37,26 @@ def ambiguity_counts(cv, type_measure, eta_max, eta_step, eps):
     count_low uses the threshold moved by -eps and finite costs only; count_high the threshold moved by
     +eps plus every NaN sample (don't-care: the statement does not say whether a NaN cost is 'within eta')."""
     n = normalise(cv, type_measure)
-    es = etas(eta_max, eta_step)
+    sets = eta_sets(eta_max, eta_step)
     best = np.nanmin(np.where(np.isnan(n), np.inf, n), axis=2)
     fin = ~np.isnan(n)
-    low = np.zeros(n.shape[:2])
-    high = np.zeros(n.shape[:2])
-    for e in es:
-        thr = best[..., None] + e
-        low += (fin & (n <= thr - eps)).sum(axis=2)
-        high += (fin & (n <= thr + eps)).sum(axis=2)
     n_nan = (~fin).sum(axis=2)
-    high = high + n_nan * len(es)
-    return low, high, n_nan, ~fin.any(axis=2), len(es)
+    lows, highs = [], []
+    for es in sets:
+        low = np.zeros(n.shape[:2])
+        high = np.zeros(n.shape[:2])
+        for e in es:
+            thr = best[..., None] + e
+            low += (fin & (n <= thr - eps)).sum(axis=2)
+            high += (fin & (n <= thr + eps)).sum(axis=2)
+        lows.append(low)
+        highs.append(high + n_nan * len(es))
+    return np.minimum.reduce(lows), np.maximum.reduce(highs), n_nan, ~fin.any(axis=2), len(sets[-1])
 
 
 def risk(cv, type_measure, eta_max, eta_step, eps):
     """Per pixel risk_max / risk_min brackets on NaN-free curves (index units); NaN elsewhere."""
     n = normalise(cv, type_measure)
-    es = etas(eta_max, eta_step)
     H, W, D = n.shape
     out = {k: np.full((H, W), np.nan) for k in ("max_lo", "max_hi", "min_lo", "min_hi")}
     idx = np.arange(D)
@@ -52,20 +66,22 @@ def risk(cv, type_measure, eta_max, eta_step, eps):
             if np.isnan(c).any():
                 continue
             b = c.min()
-            vals = {"lo": [], "hi": []}
-            mins = {"lo": [], "hi": []}
-            for e in es:
-                for tag, sgn in (("lo", -1), ("hi", 1)):
-                    sel = c <= b + e + sgn * eps
-                    if not sel.any():
-                        sel = c <= b  # the best itself is always within
-                    spread = idx[sel].max() - idx[sel].min()
-                    vals[tag].append(spread)
-                    mins[tag].append(1 + spread - sel.sum())
-            a, b_ = np.mean(vals["lo"]), np.mean(vals["hi"])
-            out["max_lo"][y, x], out["max_hi"][y, x] = min(a, b_), max(a, b_)
-            a, b_ = np.mean(mins["lo"]), np.mean(mins["hi"])
-            out["min_lo"][y, x], out["min_hi"][y, x] = min(a, b_), max(a, b_)
+            cand_max, cand_min = [], []
+            for es in eta_sets(eta_max, eta_step):
+                vals = {"lo": [], "hi": []}
+                mins = {"lo": [], "hi": []}
+                for e in es:
+                    for tag, sgn in (("lo", -1), ("hi", 1)):
+                        sel = c <= b + e + sgn * eps
+                        if not sel.any():
+                            sel = c <= b  # the best itself is always within
+                        spread = idx[sel].max() - idx[sel].min()
+                        vals[tag].append(spread)
+                        mins[tag].append(1 + spread - sel.sum())
+                cand_max += [np.mean(vals["lo"]), np.mean(vals["hi"])]
+                cand_min += [np.mean(mins["lo"]), np.mean(mins["hi"])]
+            out["max_lo"][y, x], out["max_hi"][y, x] = min(cand_max), max(cand_max)
+            out["min_lo"][y, x], out["min_hi"][y, x] = min(cand_min), max(cand_min)
     return out
 
 
